@@ -569,6 +569,22 @@ def judge_multi(ctx, spec, codec, mplan, mout, fail, payload):
                 fail(f"{tag}:return", f"{fl} client {st['client']}@{st['target']} {me['name']}: returned {str(ret)[:200]}, its server sent {str(want)[:200]}", me, asy, extra=extra)
 
 
+def safe_decode(codec, full, data):
+    """bytes the server received, read under the INPUT descriptor; bytes that are not a message of that type
+    (a call that went to another RPC's path) are shown as such instead of crashing the harness"""
+    try:
+        return codec.decode(full, data)
+    except Exception:
+        return {"<undecodable as %s>" % full: data if isinstance(data, str) else bytes(data).hex()}
+
+
+def safe_unknown(codec, full, data):
+    try:
+        return codec.unknown_fields(full, data)
+    except Exception:
+        return True
+
+
 def run_api(ctx, r, spec, label, per_method=1, informational=None, multi_client=True):
     """informational: None, or the text of the hypothesis this spec probes (failures are recorded as an
     assumption, not as oracle failures)"""
@@ -763,7 +779,7 @@ def run_api(ctx, r, spec, label, per_method=1, informational=None, multi_client=
                 srv = [rec for rec in res_["server"] if rec["path"] not in stray or rec["path"] == f"/{PKG}.{spec.get('service', SERVICE)}/{me['name']}"]
                 calls = []
                 for rec in srv:
-                    sent = [codec.decode(in_full, b) for b in rec["requests"]]
+                    sent = [safe_decode(codec, in_full, b) for b in rec["requests"]]
                     kinds = sorted(kinds_by_path.get(rec["path"], []))
                     calls.append({"path": rec["path"], "kind": kinds[0] if len(kinds) == 1 else "|".join(kinds), "sent": [canon(x) for x in sent]})
                 ret = observed_ret(codec, me, res_["ok"])
@@ -779,8 +795,8 @@ def run_api(ctx, r, spec, label, per_method=1, informational=None, multi_client=
                         fail("path", f"{fl} {me['name']}: call went to {rec['path']}, expected {want_path}", me, asy, extra=extra)
                     if kinds_by_path.get(rec["path"]) != {want_kind}:
                         fail("arity", f"{fl} {me['name']}: stub opened as {sorted(kinds_by_path.get(rec['path'], []))}, proto declares {want_kind}", me, asy, extra=extra)
-                    sent = [codec.decode(in_full, b) for b in rec["requests"]]
-                    unknown = any(codec.unknown_fields(in_full, b) for b in rec["requests"])
+                    sent = [safe_decode(codec, in_full, b) for b in rec["requests"]]
+                    unknown = any(safe_unknown(codec, in_full, b) for b in rec["requests"])
                     if sent != p["requests"] or unknown:
                         dropped = (asy and me["cs"] and me["output"]["full"] == "google.protobuf.Empty" and not unknown
                                    and sent == p["requests"][:len(sent)])      # the released call was cut short (same defect)
